@@ -85,6 +85,11 @@ func (f *Frame) safety(kind string, in ssa.Instruction, goal Term, guard Term, w
 	if goal.S == "true" {
 		return
 	}
+	if f.vc.noSafety {
+		// assumed, not proved (see the nosafety flag of the contract)
+		f.vc.assume(Implies(guard, goal), "nosafety: "+what)
+		return
+	}
 	f.vc.safetyN[kind]++
 	pos := f.posString(in.Pos())
 	if pos == "" {
